@@ -35,6 +35,9 @@ func init() {
 	})
 	// C06: values around the value threshold (32): inline and value-log placements
 	register("C06", func(c *Ctx) error {
+		if err := runC06Vlog(c); err != nil {
+			return err
+		}
 		if err := runC06Concurrent(c); err != nil {
 			return err
 		}
